@@ -316,7 +316,16 @@ func VP_C06_Transition() {
 			return out
 		}
 		n1, err1 := updateState(cur.Copy(), id, &block.Header, r, copyUps())
-		n2, err2 := updateState(cur.Copy(), id, &block.Header, r, copyUps())
+		// another node's application reports the same deterministic results (code, data, gas) but other
+		// log text, info, codespace and events
+		r2 := &tmstate.ABCIResponses{BeginBlock: r.BeginBlock, EndBlock: r.EndBlock}
+		for k, d := range r.DeliverTxs {
+			c := *d
+			c.Log, c.Info, c.Codespace = "other node's log", "other info", []string{"sdk", "app"}[k%2]
+			c.Events = []abci.Event{{Type: "local"}}
+			r2.DeliverTxs = append(r2.DeliverTxs, &c)
+		}
+		n2, err2 := updateState(cur.Copy(), id, &block.Header, r2, copyUps())
 		vp.Assert((err1 == nil) == (err2 == nil), "C06.transition.same-inputs-same-verdict")
 		if err1 != nil {
 			vp.Reach("update-refused?")
